@@ -21,6 +21,9 @@ def _py2lean():
 
 
 _RS = "okdmr.dmrlib.etsi.fec.reed_solomon_12_9_4"
+_HDAP = "okdmr.dmrlib.hytera.pdu.hdap"
+_HRNP = "okdmr.dmrlib.hytera.pdu.hrnp"
+_MBXML = "okdmr.dmrlib.motorola.mbxml"
 
 UNITS = {
     "Rs": dict(
@@ -31,6 +34,27 @@ UNITS = {
             (_RS, "ReedSolomon1294.check"),
         ],
         fuel={},
+    ),
+    "Hytera": dict(
+        functions=[
+            (_HDAP, "HDAP.get_hdap_checksum"),
+            (_HRNP, "HRNP.calculate_checksum"),
+        ],
+        # `while check >> 16: check = (check & 0xFFFF) + (check >> 16)`: a pass with check >= 65536 strictly decreases check,
+        # so at most `check` passes are made before the test fails
+        fuel={"HRNP.calculate_checksum": ["check + 1"]},
+    ),
+    "Mbxml": dict(
+        functions=[
+            (_MBXML, "MBXML.read_uintvar"),
+            (_MBXML, "MBXML.read_sintvar"),
+            (_MBXML, "MBXML.read_uint8"),
+            (_MBXML, "MBXML.read_opaque"),
+            (_MBXML, "MBXML.read_opaque_defined_size"),
+        ],
+        # `while True: this = data[idx]; ...; idx += 1; if this & 0x80 == 0: break`: every pass that does not raise reads
+        # data[idx] with -len <= idx < len and increases idx by one, so at most 2*len passes succeed; pass 2*len+1 raises IndexError
+        fuel={"MBXML.read_uintvar": ["2 * len(data) + 1"], "MBXML.read_sintvar": ["2 * len(data) + 1"]},
     ),
 }
 
